@@ -19,10 +19,29 @@ func c12RSABits(c *Ctx) {
 	p, r := c.P, c.R
 	rule := "C12.rsabits"
 	pkgs := []string{"signature/rsassapkcs1", "signature/rsassapss", "jwt/jwtrsassapkcs1", "jwt/jwtrsassapss"}
-	isBitLen := func(v ssa.Value) bool {
-		call, _ := guard.CallOf(v)
-		return call != nil && guard.CalleeName(&call.Call) == "(*math/big.Int).BitLen"
+	var isBitLenD func(v ssa.Value, depth int) bool
+	isBitLenD = func(v ssa.Value, depth int) bool {
+		call, idx := guard.CallOf(v)
+		if call == nil {
+			return false
+		}
+		if guard.CalleeName(&call.Call) == "(*math/big.Int).BitLen" {
+			return true
+		}
+		// a helper of the package that hands the bit length back as one of its results
+		h := call.Call.StaticCallee()
+		if h == nil || h.Blocks == nil || depth > 2 || !strings.HasPrefix(core.PkgOf(h), core.ModPath) {
+			return false
+		}
+		rets := guard.Returns(h)
+		for _, ret := range rets {
+			if idx >= len(ret.Results) || !isBitLenD(ret.Results[idx], depth+1) {
+				return false
+			}
+		}
+		return len(rets) > 0
 	}
+	isBitLen := func(v ssa.Value) bool { return isBitLenD(v, 0) }
 	n := 0
 	for _, rel := range pkgs {
 		for _, f := range pkgFuncs(p, rel) {
